@@ -103,6 +103,7 @@ func blockingOp(ins ssa.Instruction) string {
 
 func xlocks(c *Ctx) (*report.Result, error) {
 	res := newResult("XLOCKS")
+	checkStateless(c, res, "XS", []string{"interceptor", "proto/compat", "auth", "collect"}, map[string]string{})
 	for _, f := range c.Prog.RepoFuncs() {
 		if !isShippedFunc(f) {
 			continue
